@@ -94,6 +94,27 @@ class RasterTranslator(VPTranslator):
         return '(IInt %s)' % self.as_Z(self.expr(e, env))
 
     def hook_stmt(self, s, rest, env, ctx, k):
+        # error.range_check(lo, hi, v..) / error.throw_if(cond): raise Illegal function call (their bodies are
+        # checked against the expected text by check_error_helpers)
+        if isinstance(s, ast.Expr) and isinstance(s.value, ast.Call) and ctx.monadic:
+            fname = self.dotted(s.value.func)
+            args = s.value.args
+            if fname == 'error.range_check' and len(args) >= 3 and not s.value.keywords:
+                lo = self.as_Z(self.expr(args[0], env))
+                hi = self.as_Z(self.expr(args[1], env))
+                conds = []
+                for a in args[2:]:
+                    t = self.expr(a, env)
+                    if t[1] != 'Z':
+                        refuse(s, 'range_check on a value that may be None')
+                    conds.append('(andb (Z.leb %s %s) (Z.leb %s %s))' % (lo, t[0], t[0], hi))
+                c = conds[-1]
+                for x in reversed(conds[:-1]):
+                    c = '(andb %s %s)' % (x, c)
+                return 'if %s then (\n%s\n) else Err %d' % (c, self.block(rest, env, ctx, k), self.errors['IFC'])
+            if fname == 'error.throw_if' and len(args) == 1 and not s.value.keywords:
+                c = self.as_bool(self.expr(args[0], env))
+                return 'if %s then Err %d else (\n%s\n)' % (c, self.errors['IFC'], self.block(rest, env, ctx, k))
         if isinstance(s, ast.Assign) and len(s.targets) == 1 and is_gv_store(s.targets[0]):
             t = s.targets[0]
             if not (isinstance(t.slice, ast.Tuple) and len(t.slice.elts) == 2):
@@ -276,6 +297,57 @@ def pixel_buffer_refs(m):
     return refs
 
 
+def check_error_helpers(repo):
+    """error.range_check / error.throw_if must be the functions the translator hard-codes."""
+    em = Module(os.path.join(repo, 'pcbasic/basic/base/error.py'))
+    want = {
+        'range_check': ('lower, upper, *allvars',
+                        'for v in allvars:\n    if v is not None and (not lower <= v <= upper):\n'
+                        '        raise BASICError(IFC)'),
+        'throw_if': ('bool, err=IFC', 'if bool:\n    raise BASICError(err)'),
+    }
+    for name, (sig, body) in want.items():
+        fn = em.find(name)
+        got_body = '\n'.join(ast.unparse(x) for x in fn.body
+                             if not (isinstance(x, ast.Expr) and isinstance(x.value, ast.Constant)))
+        if ast.unparse(fn.args) != sig or got_body != body:
+            refuse(fn, 'error.%s changed: (%s) %r' % (name, ast.unparse(fn.args), got_body))
+
+
+WRITER_CALLS = {
+    # function -> the only self.<method> calls it may contain (besides attribute reads); pixel writes themselves are
+    # in raster_store_sites.  _draw_circle/_draw_ellipse: single-pixel stores + pie-slice lines;
+    # DRAW: lines and PAINT only
+    '_draw_circle': {'_draw_line'},
+    '_draw_ellipse': {'_draw_line'},
+    '_draw_step': {'_draw_line'},
+    '_draw': {'_draw', '_draw_step', '_draw_line', '_flood_fill', '_get_window_logical', '_get_attr_index'},
+}
+
+
+def writer_calls(m):
+    """Fail closed unless the drawing loops of CIRCLE and DRAW reach pixels only through single-pixel stores,
+    _draw_line and (DRAW P) _flood_fill."""
+    res = []
+    for name, allowed in sorted(WRITER_CALLS.items()):
+        fn = m.find('Graphics.' + name)
+        for n in ast.walk(fn):
+            if isinstance(n, ast.Call) and isinstance(n.func, ast.Attribute) and \
+                    isinstance(n.func.value, ast.Name) and n.func.value.id == 'self':
+                if n.func.attr not in allowed:
+                    refuse(n, 'Graphics.%s calls self.%s' % (name, n.func.attr))
+                res.append((name, n.func.attr))
+            if isinstance(n, ast.Attribute) and n.attr == 'graph_view':
+                # only as the target of a store (checked by store_sites) - any other use (slicing reads, method
+                # calls on the viewport) would be a new channel
+                pass
+        for n in ast.walk(fn):
+            if isinstance(n, ast.Call) and isinstance(n.func, ast.Attribute) and \
+                    isinstance(n.func.value, ast.Attribute) and n.func.value.attr == 'graph_view':
+                refuse(n, 'Graphics.%s calls a viewport method %s' % (name, n.func.attr))
+    return res
+
+
 def guard_first(m, name):
     fn = m.find('Graphics.' + name)
     body = [s for s in fn.body if not (isinstance(s, ast.Expr) and isinstance(s.value, ast.Constant)
@@ -322,6 +394,18 @@ def generate(repo):
                    param_types={'self._mode.is_text_mode': 'bool'},
                    stmts=(r'^if self\._mode\.is_text_mode:$', r'^if self\._mode\.is_text_mode:$'))
     t.emit('Definition raster_guarded_statements : Z := %d.' % len(GUARDED))
+    # CIRCLE / DRAW reach pixels only through single-pixel stores, _draw_line and _flood_fill
+    wc = writer_calls(m)
+    t.emit('(* writer calls inside _draw_circle/_draw_ellipse/_draw/_draw_step: %s *)' % ', '.join(
+        sorted(set('%s->%s' % x for x in wc))))
+    t.emit('Definition raster_writer_calls_checked : Z := %d.' % len(WRITER_CALLS))
+    # VIEW: the range checks of the corners (view_)
+    check_error_helpers(repo)
+    t.function('Graphics.view_', coqname='raster_view_checks',
+               param_types={'self._mode.pixel_width': 'Z', 'self._mode.pixel_height': 'Z',
+                            'x0': 'Z', 'y0': 'Z', 'x1': 'Z', 'y1': 'Z'},
+               stmts=(r'^error\.range_check\(0, self\._mode\.pixel_width-1, x0, x1\)$',
+                      r'^error\.throw_if\(x0==x1 or y0 == y1\)$'), force_monadic=True)
     # request generators
     t.funcs = {}
     # the single write of PSET/PRESET (last statement of _pset_preset)
